@@ -236,7 +236,7 @@ def inject(req):
     import scenic.syntax.veneer as v
     d = tempfile.mkdtemp(prefix="verif-c10-")
     open(os.path.join(d, "helper.scenic"), "w").write("hparam = 3\nhobj = new Object at (10, 10)\n")
-    open(os.path.join(d, "top.scenic"), "w").write("import helper\nego = new Object\nparam q = 4\n")
+    open(os.path.join(d, "top.scenic"), "w").write("param q = 4\nimport helper\nego = new Object\n")
     open(os.path.join(d, "flat.scenic"), "w").write("ego = new Object\nparam q = 4\n")
     out = []
 
